@@ -772,4 +772,145 @@ theorem place_eq (queues : List (Nat × List Task)) (ts : List Task) :
     · simp [h]
     · simp [h]
 
+/-! ### loading of the declared schedule entries -/
+
+theorem mem_mergeTail (u as : List Nat) (x : Nat) : x ∈ mergeTail u as ↔ x ∈ u ∧ x ∈ as := by
+  induction as generalizing u with
+  | nil => simp [mergeTail]
+  | cons a as ih =>
+    unfold mergeTail
+    by_cases h : a ∈ u
+    · simp only [h, if_true, List.mem_cons, ih, List.mem_filter, bne_iff_ne, ne_eq]
+      constructor
+      · rintro (rfl | ⟨⟨hu, _⟩, ha⟩)
+        · exact ⟨h, Or.inl rfl⟩
+        · exact ⟨hu, Or.inr ha⟩
+      · rintro ⟨hu, rfl | ha⟩
+        · exact Or.inl rfl
+        · by_cases hx : x = a
+          · exact Or.inl hx
+          · exact Or.inr ⟨⟨hu, hx⟩, ha⟩
+    · simp only [h, if_false, ih, List.mem_cons]
+      constructor
+      · rintro ⟨hu, ha⟩; exact ⟨hu, Or.inr ha⟩
+      · rintro ⟨hu, rfl | ha⟩
+        · exact absurd hu h
+        · exact ⟨hu, ha⟩
+
+theorem nodupB_mergeTail (u as : List Nat) : Spec.nodupB (mergeTail u as) = true := by
+  induction as generalizing u with
+  | nil => simp [mergeTail, Spec.nodupB]
+  | cons a as ih =>
+    unfold mergeTail
+    by_cases h : a ∈ u
+    · simp only [h, if_true, Spec.nodupB, Bool.and_eq_true, Bool.not_eq_true', ih, and_true]
+      have : a ∉ mergeTail (u.filter (· != a)) as := by
+        rw [mem_mergeTail]; simp
+      simpa using this
+    · simp only [h, if_false, ih]
+
+/-- One declared entry, loaded (`load` is this, entry by entry). -/
+def loadOne (df : Defaults) (v0 : Bool) (kubes : List KubeDecl) (id : Id) (d : Decl) : Binding :=
+  if v0 then convertV0 df id d else mergeGroup df kubes (convertV1 df id d)
+
+theorem load_eq_map (df : Defaults) (v0 : Bool) (kubes : List KubeDecl) (ds : List (Id × Decl)) :
+    load df v0 kubes ds = ds.map (fun p => loadOne df v0 kubes p.1 p.2) := by
+  cases v0 <;> simp [load, loadV0, loadV1, loadOne, List.map_map, Function.comp_def]
+
+theorem loadOne_id (df : Defaults) (v0 : Bool) (kubes : List KubeDecl) (id : Id) (d : Decl) :
+    (loadOne df v0 kubes id d).id = id := by
+  cases v0
+  · simp only [loadOne, mergeGroup, Bool.false_eq_true, if_false]
+    cases groupSnaps df kubes (convertV1 df id d).group <;> rfl
+  · rfl
+
+theorem loadOne_crontab (df : Defaults) (v0 : Bool) (kubes : List KubeDecl) (id : Id) (d : Decl) :
+    (loadOne df v0 kubes id d).crontab = d.crontab := by
+  cases v0
+  · simp only [loadOne, mergeGroup, Bool.false_eq_true, if_false]
+    cases groupSnaps df kubes (convertV1 df id d).group <;> rfl
+  · rfl
+
+theorem snapshotsOk_self_nil (a : List Nat) : Spec.snapshotsOk a [] a = true := by
+  simp [Spec.snapshotsOk, Spec.nodupB]
+
+theorem snapshotsOk_merge (a names : List Nat) : Spec.snapshotsOk a names (mergeArrays a names) = true := by
+  unfold Spec.snapshotsOk mergeArrays
+  simp only [List.take_left', List.drop_left', beq_self_eq_true, Bool.true_and, Bool.and_eq_true,
+    List.all_eq_true, nodupB_mergeTail, and_true]
+  constructor
+  · intro x hx
+    rw [mem_mergeTail] at hx
+    obtain ⟨hu, hn⟩ := hx
+    simp only [List.mem_filter] at hu
+    have hna : x ∉ a := by simpa using hu.2
+    simp [hn, hna]
+  · intro x hx
+    by_cases ha : x ∈ a
+    · simp [ha]
+    · have : x ∈ mergeTail (names.filter (fun y => !(a.contains y))) names := by
+        rw [mem_mergeTail]; exact ⟨by simp [List.mem_filter, hx, ha], hx⟩
+      simp only [List.contains_eq_mem] at this
+      simp [this]
+
+/-- The loader hands the controller the binding the hook declared. -/
+theorem loadOne_declaredAs (df : Defaults) (v0 : Bool) (kubes : List KubeDecl) (id : Id) (d : Decl) :
+    Spec.declaredAs df v0 kubes id d (loadOne df v0 kubes id d) = true := by
+  cases v0
+  · -- v1
+    simp only [loadOne, Bool.false_eq_true, if_false, Spec.declaredAs, mergeGroup]
+    have hnames : ∀ sn, groupSnaps df kubes d.group = some sn → Spec.groupNames df kubes d.group = sn := by
+      intro sn h
+      unfold groupSnaps at h
+      simp only at h
+      split at h
+      · cases h
+      · rename_i hne
+        injection h with h
+        subst h
+        unfold Spec.groupNames
+        by_cases hg : d.group = df.noGroup
+        · exfalso; apply hne
+          simp [hg]
+        · have : (d.group == df.noGroup) = false := by simpa using hg
+          simp only [this, Bool.false_eq_true, if_false]
+          congr 1
+          apply List.filter_congr
+          intro k _
+          by_cases hk : k.group = d.group
+          · simp [hk, hg]
+          · simp [hk]
+    have hnone : groupSnaps df kubes d.group = none → Spec.groupNames df kubes d.group = [] := by
+      intro h
+      unfold groupSnaps at h
+      simp only at h
+      split at h
+      · rename_i he
+        unfold Spec.groupNames
+        by_cases hg : d.group = df.noGroup
+        · simp [hg]
+        · have : (d.group == df.noGroup) = false := by simpa using hg
+          simp only [this, Bool.false_eq_true, if_false]
+          have he' := List.isEmpty_iff.mp he
+          rw [← he']
+          congr 1
+          apply List.filter_congr
+          intro k _
+          by_cases hk : k.group = d.group
+          · simp [hk, hg]
+          · simp [hk]
+      · cases h
+    have hgrp : (convertV1 df id d).group = d.group := rfl
+    rw [hgrp]
+    cases hs : groupSnaps df kubes d.group with
+    | none =>
+      simp only [convertV1, hnone hs, snapshotsOk_self_nil]
+      cases d.name <;> cases d.queue <;> simp
+    | some sn =>
+      simp only [convertV1, hnames sn hs, snapshotsOk_merge]
+      cases d.name <;> cases d.queue <;> simp
+  · -- v0
+    simp only [loadOne, if_true, Spec.declaredAs, convertV0]
+    cases d.name <;> simp
+
 end ShellOp.Schedule
